@@ -23,7 +23,7 @@ def sigOf (e : Env) (t : Nat) (m : String) : Nat :=
   | some p => p.2
   | none => 0
 
-def hName (n : String) : Nat := (n.toList.foldl (fun a c => a + c.toNat) 0) % 97
+def hName (n : String) : Nat := (n.toUTF8.foldl (fun a c => a + c.toNat) 0) % 97
 
 def showRes (sig x : Nat) (m : String) : Res → String
   | .cb k => if sig = 2 then s!"s{k}" else if sig = 1 then s!"r{k * 100000 + x * 10 + 2}" else s!"r{k * 100000 + x * 10}"
@@ -73,7 +73,11 @@ def go (e : Env) (s : St) (started : Bool) (toks : List String) (acc : List Stri
       match parseNat b, parseNat v, parseNat k with
       | some b, some v, some k =>
         if v ≥ e.vars.length ∨ k ≠ s.ncb ∨ ¬ (s.blds b).alive then "bad-op" else
-        let kd : Option Kind := match kind, more with
+        -- kind token: optional prefix `h` (kept handle), `ap|rt|wn`, optional suffix `x` (callback does not fit the method)
+        let kl := kind.toList
+        let (viaH, kl) := match kl with | 'h' :: r => (true, r) | r => (false, r)
+        let (fits, kl) := match kl.reverse with | 'x' :: r => (false, r.reverse) | _ => (true, kl)
+        let kd : Option Kind := match String.ofList kl, more with
           | "ap", [] => some .ap
           | "rt", [] => some .rt
           | "wn", [a] => (parseNat a).map Kind.wn
@@ -83,7 +87,8 @@ def go (e : Env) (s : St) (started : Bool) (toks : List String) (acc : List Stri
         | some kd =>
           let isWn := match kd with | .wn _ => true | _ => false
           if isWn && sigOf e (s.vtyp v) m == 2 then "bad-op" else
-          match step Cfg.fixed s (.mock b v m kd) with
+          let op : Op := if viaH then .mockH b v m kd fits else .mock b v m kd fits
+          match step Cfg.fixed s op with
           | none => "unmodelled"
           | some (s', st) =>
             let e := { e with maxB := max e.maxB b }
@@ -108,6 +113,7 @@ def go (e : Env) (s : St) (started : Bool) (toks : List String) (acc : List Stri
         | some (s', _) => go { e with maxB := max e.maxB b } s' true rest ("ok" :: acc)
         | none => "unmodelled"
       | none => "bad-op"
+    | ["mx"] => go e s started rest (toString maxMethod :: acc)
     | ["gc"] =>
       let s := start e s
       go e s true rest (s!"collectable={natList (collectable e s)}" :: acc)
